@@ -239,7 +239,7 @@ def run():
         for tag, pr in (("s", short), ("l", long_)):
             for suffix, how in (("v", "single read"), ("c", "reads of 1023,1 bytes")):
                 end = out[f"g{n}{tag}{suffix}"]["end"]
-                if end != pr[3]:
+                if end != pr[3] and not end.startswith(("discarded:", "fuel:")):
                     ck.reject(f"C16:long-token-value:{kind}", f"{kind} token of length {L if tag == 'l' else 3} at offset ~{O} ({how}): "
                                                              f"program gives {end}, expected {pr[3]}",
                               {"kind": kind, "length": L, "offset": O, "reader": how, "observed": end, "expected": pr[3]})
@@ -271,6 +271,8 @@ def run():
     hout = run_cases(hreqs, label="C16 huge tokens")
     for rq, (kind, L, how, want, nlines) in zip(hreqs, hmeta):
         o = hout[rq["id"]]
+        if o["end"].startswith(("discarded:", "fuel:")):
+            continue
         if how == "REPL":
             text = o["events"][0][3:] if o["events"] else ""
             body = text[text.index(">>> "):] if ">>> " in text else text
@@ -313,7 +315,7 @@ def run():
             if not flat_ast[flat].startswith("ast:"):
                 raise pvlib.Broken(f"the one-line form {flat!r} does not parse: {flat_ast[flat][:100]}")
     for rq, (flat, what) in zip(oreqs, ometa):
-        if what is not None and oout[rq["id"]]["end"] != flat_ast[flat]:
+        if what is not None and not oout[rq["id"]]["end"].startswith("discarded:") and oout[rq["id"]]["end"] != flat_ast[flat]:
             ck.reject("C16:optional-break:" + flat.split("(")[0].split("{")[0].split("[")[0][:8], f"{what}: parses to {oout[rq['id']]['end'][:160]}, the one-line form to {flat_ast[flat][:160]}",
                       {"src": rq["src"], "one_line": flat, "observed": oout[rq["id"]]["end"][:600], "expected": flat_ast[flat][:600]})
     ck.cov["optional_break_programs"] = len(oreqs)
@@ -332,6 +334,8 @@ def run():
         text = o["events"][0][3:] if o["events"] else ""
         body = text[text.index(">>> "):] if ">>> " in text else text
         want = ">>> nil\n" + MULTI + (h["events"][0][3:] if h["events"] else "<no reference>") + MULTI
+        if o["end"].startswith(("discarded:", "fuel:")) or h["end"].startswith(("discarded:", "fuel:")):
+            continue
         if o["end"] != "exit:0" or h["end"] != "ok" or body != want:
             ck.reject("C16:repl-block", f"typed into the REPL's multi-line mode, the block {b!r} prints {body[-200:]!r}; parsed as written it gives {want[-200:]!r}",
                       {"block": b, "observed": body[-600:], "expected": want[-600:]})
